@@ -619,6 +619,14 @@ impl TxPool {
         let mut all_conflicted = conflicts.clone();
         let ancestors = self.pool_map.calc_ancestors(&short_id);
         for conflict in conflicts.iter() {
+            // the new tx can not spend an output of a tx it replaces
+            let conflict_hash = conflict.inner.transaction().hash();
+            if tx_inputs.iter().any(|pt| pt.tx_hash() == conflict_hash) {
+                return Err(Reject::RBFRejected(
+                    "new Tx contains inputs in to be replaced Tx".to_string(),
+                ));
+            }
+
             let descendants = self.pool_map.calc_descendants(&conflict.id);
             replace_count += descendants.len() + 1;
             if replace_count > MAX_REPLACEMENT_CANDIDATES {
